@@ -48,6 +48,12 @@ def build():
     add("hq_level1", enc(2, level=Levels(1)), "level 1 (relaxed value table): pictures only", slices=(2, 1), relaxed_levels=True)
     add("hq_level1_frag", enc(1, level=Levels(1), fragment_slice_count=1), "level 1 (relaxed value table): fragments only", slices=(2, 1), relaxed_levels=True)
     add("hq_level66", enc(2, level=Levels(66)), "level 66 pattern (sequence_header high_quality_picture)* end_of_sequence", slices=(2, 1), relaxed_levels=True)
+    def enc_kw(n=1, **kw):
+        cf = minimal_codec_features()
+        return encode(cf, make_pictures(cf, n), **kw)
+
+    add("hq_scaler2", enc_kw(1, minimum_slice_size_scaler=2), "HQ lossy with slice_size_scaler 2", slices=(2, 1))
+    add("hq_qindex", enc_kw(1, minimum_qindex=7), "HQ lossy with minimum qindex 7", slices=(2, 1))
     # pictures coded under major_version 3 (extended transform parameters present) without any feature that needs it:
     # individually valid data units, the stream as a whole is rejected (MajorVersionTooHigh)
     def enc_v3(**over):
